@@ -185,3 +185,37 @@ func vCommitThenAction(n int) {
 	vCheckConfigAppends("G2", true)
 	vReach("end")
 }
+
+//verif:check C17,C08 stubs=env,valuefile,abslog reach=started,end desc="progress step P5: a membership action that is pending in a committed configuration and needs nothing else (demote/force-remove of a follower) is started in the very step in which it becomes permitted - when the leader commits the first entry of its term" bounds="2..3 nodes, the follower carries Demote or ForceRemove, the leader's no-op is the entry being committed"
+func VH_C17_pending_action_started() {
+	n := 2 + vChoice(2)
+	r, l, a := vMkLeader(n, 2, false)
+	cfg := r.configs.Latest
+	vAssume(r.nid == 1 && l.node.Voter && l.node.Action == None)
+	nd2 := cfg.Nodes[2]
+	vAssume(vOr(vAnd(nd2.Voter, nd2.Action == Demote), nd2.Action == ForceRemove))
+	if n == 3 {
+		nd3 := cfg.Nodes[3]
+		vAssume(nd3.Action == None)
+	}
+	r.configs.Committed = cfg
+	// the leader has just been elected: its no-op is the last entry, nothing of its term is committed yet
+	vAssume(l.startIndex == r.lastLogIndex && r.commitIndex < l.startIndex && cfg.Index <= r.commitIndex)
+	_ = a
+	vWatchConfigAppends(r, l)
+	vAssert(!l.canChangeConfig(), "P5-not-permitted-before-own-term-commit")
+	// every voter acknowledges the no-op
+	for _, repl := range l.repls {
+		repl.status.matchIndex = r.lastLogIndex
+	}
+	l.onMajorityCommit()
+	vAssert(r.commitIndex >= l.startIndex, "P3-no-op-committed")
+	vAssert(len(vCfgAppends) >= 1, "P5-pending-action-started-when-permitted")
+	if len(vCfgAppends) >= 1 {
+		vReach("started")
+		nn, still := vCfgAppends[0].conf.Nodes[2]
+		vAssert(!still || !nn.Voter, "P5-the-action-is-the-pending-one")
+	}
+	vCheckConfigAppends("P5", true)
+	vReach("end")
+}
